@@ -86,7 +86,11 @@ def quoteString (s : Str) : Str :=
 
 /-- one assignment of parseDirectives: the FIRST occurrence of a directive is kept, except for
     no-cache: an unqualified one wins wherever it stands, and two qualified ones name the fields of
-    both lists -/
+    both lists. (The code collects the later no-cache arguments and joins them once at the end —
+    `mergeNoCache`, linear in their length; the model merges at every insert. The two give the same
+    map because `parseQuotedString (quoteString x) = x` (Proofs/Csv.lean, `parseQuotedString_quoteString`):
+    re-reading the merged list gives back the joined lists. The correspondence check compares them on
+    every history with repeated no-cache directives.) -/
 def directiveInsert (m : Directives) (k v : Str) : Directives :=
   match alookup k m with
   | some prev =>
